@@ -460,4 +460,446 @@ theorem contractOk_sound (bufs : List Buf) (cap : Nat) (offs : List Nat)
       simp only [Bool.or_eq_true, decide_eq_true_eq] at hd
       exact hd
 
+/-! ## the first-fit solver satisfies the contract -/
+
+theorem alignUp_mod (off a : Nat) : alignUp off a % a = 0 := by
+  unfold alignUp; exact Nat.mul_mod_left _ _
+
+theorem findSlot_spec (b : Buf) (a : Nat) (placed : List (Buf × Nat)) :
+    ∀ (fuel off o : Nat), findSlot b a placed fuel off = some o →
+      o % a = 0 ∧ ∀ p ∈ placed, clashWith b o p = false
+  | 0, _, _, h => by simp [findSlot] at h
+  | fuel + 1, off, o, h => by
+    simp only [findSlot] at h
+    split at h
+    · rename_i hnone
+      simp only [Option.some.injEq] at h
+      subst h
+      refine ⟨alignUp_mod off a, ?_⟩
+      intro p hp
+      have := List.find?_eq_none.1 hnone p hp
+      simpa using this
+    · exact findSlot_spec b a placed fuel _ o h
+
+/-- two placed buffers do not conflict -/
+def NoClash (p q : Buf × Nat) : Prop :=
+  p.1 ≠ q.1 → max p.1.start q.1.start < min p.1.stop q.1.stop →
+    p.2 + p.1.size ≤ q.2 ∨ q.2 + q.1.size ≤ p.2
+
+/-- invariant of the placement loop -/
+def Good (cap : Nat) (L : List (Buf × Nat)) : Prop :=
+  (∀ p ∈ L, p.2 + p.1.size ≤ cap ∧ (0 < p.1.align → p.2 % p.1.align = 0)) ∧
+  (∀ p ∈ L, ∀ q ∈ L, NoClash p q)
+
+theorem noClash_of_clashWith {b : Buf} {o : Nat} {p : Buf × Nat} (h : clashWith b o p = false) :
+    NoClash (b, o) p ∧ NoClash p (b, o) := by
+  unfold clashWith overlapLife disjointRange at h
+  simp only [Bool.and_eq_false_iff, decide_eq_false_iff_not, Bool.not_eq_false', Bool.or_eq_true,
+    decide_eq_true_eq] at h
+  constructor
+  · intro _ hov
+    simp only at hov ⊢
+    rcases h with h | h
+    · omega
+    · omega
+  · intro _ hov
+    simp only at hov ⊢
+    rcases h with h | h
+    · omega
+    · omega
+
+theorem firstFitAux_spec (cap : Nat) : ∀ (bufs : List Buf) (placed : List (Buf × Nat)) (offs : List Nat),
+    Good cap placed → firstFitAux cap bufs placed = .ok offs →
+    offs.length = bufs.length ∧ Good cap (placed ++ bufs.zip offs)
+  | [], placed, offs, hg, h => by
+    simp [firstFitAux] at h; subst h; simpa using hg
+  | b :: rest, placed, offs, hg, h => by
+    simp only [firstFitAux] at h
+    split at h
+    · simp at h
+    · rename_i off hslot
+      split at h
+      · simp at h
+      · rename_i hcap
+        cases hr : firstFitAux cap rest (placed ++ [(b, off)]) with
+        | error e => simp [hr, Except.map] at h
+        | ok tl =>
+          simp [hr, Except.map] at h
+          subst h
+          obtain ⟨hmod, hno⟩ := findSlot_spec b (max 1 b.align) placed _ 0 off hslot
+          have hg' : Good cap (placed ++ [(b, off)]) := by
+            refine ⟨?_, ?_⟩
+            · intro p hp
+              simp only [List.mem_append, List.mem_singleton] at hp
+              rcases hp with hp | rfl
+              · exact hg.1 p hp
+              · refine ⟨by simp only; omega, ?_⟩
+                intro hal
+                simp only at hal ⊢
+                have : max 1 b.align = b.align := by omega
+                rw [this] at hmod
+                exact hmod
+            · intro p hp q hq
+              simp only [List.mem_append, List.mem_singleton] at hp hq
+              rcases hp with hp | rfl
+              · rcases hq with hq | rfl
+                · exact hg.2 p hp q hq
+                · exact (noClash_of_clashWith (hno p hp)).2
+              · rcases hq with hq | rfl
+                · exact (noClash_of_clashWith (hno q hq)).1
+                · intro hne; exact absurd rfl hne
+          obtain ⟨hlen, hgood⟩ := firstFitAux_spec cap rest _ tl hg' hr
+          refine ⟨by simp [hlen], ?_⟩
+          simpa [List.append_assoc] using hgood
+
+theorem good_nil (cap : Nat) : Good cap [] := by
+  constructor <;> intro p hp <;> simp at hp
+
+/-- Every answer of the first-fit solver satisfies the safety part of the contract, and the
+alignment part for every buffer with a non-zero alignment. -/
+theorem firstFit_spec (bufs : List Buf) (cap : Nat) (offs : List Nat) (h : firstFit bufs cap = .ok offs) :
+    SolverSafe bufs cap offs ∧ ∀ p ∈ bufs.zip offs, 0 < p.1.align → p.2 % p.1.align = 0 := by
+  obtain ⟨hlen, hg⟩ := firstFitAux_spec cap bufs [] offs (good_nil cap) h
+  simp only [List.nil_append] at hg
+  refine ⟨⟨hlen, fun p hp => (hg.1 p hp).1, ?_⟩, fun p hp => (hg.1 p hp).2⟩
+  intro p hp q hq hne hov
+  exact hg.2 p hp q hq hne hov
+
+theorem solverSafe_of_contract {bufs : List Buf} {cap : Nat} {offs : List Nat}
+    (h : SolverContract bufs cap offs) : SolverSafe bufs cap offs :=
+  ⟨h.1, fun p hp => (h.2.1 p hp).2, h.2.2⟩
+
+theorem ffErrors_ok (mems : List Mem) (bs : List Buf) : ∀ (n : Nat), ffErrors mems bs n = .ok () →
+    ∀ m, m < n → ∀ mem, mems[m]? = some mem → ∃ offs, firstFit (subset bs m) mem.cap = .ok offs
+  | 0, _, m, hm, _, _ => by omega
+  | n + 1, h, m, hm, mem, hmem => by
+    simp only [ffErrors] at h
+    split at h
+    · simp at h
+    · rename_i hprev
+      by_cases hmn : m = n
+      · subst hmn
+        simp only [hmem] at h
+        split at h
+        · rename_i offs hoffs; exact ⟨offs, hoffs⟩
+        · simp at h
+      · exact ffErrors_ok mems bs n (by cases ‹Unit›; exact hprev) m (by omega) mem hmem
+
+theorem miniMallocate_bufs (vm : ViewMode) (mems : List Mem) (sol : Nat → List Nat) (p : Prog) (r : MiniResult)
+    (h : miniMallocate vm mems sol p = .ok r) : lifetimes vm p = .ok r.bufs := by
+  unfold miniMallocate at h
+  split at h
+  · simp at h
+  · rename_i bs hbs
+    split at h
+    · simp at h
+    · split at h
+      · simp at h
+      · simp only [Except.ok.injEq] at h
+        subst h
+        exact hbs
+
+/-! ## the first-fit search terminates: the fuel of the model is never used up -/
+
+theorem alignUp_ge (off a : Nat) (h : 0 < a) : off ≤ alignUp off a := by
+  unfold alignUp
+  have h1 := Nat.div_add_mod (off + a - 1) a
+  have h2 := Nat.mod_lt (off + a - 1) h
+  have h3 : (off + a - 1) / a * a = a * ((off + a - 1) / a) := Nat.mul_comm _ _
+  omega
+
+theorem filter_length_le_of_imp {α} (P Q : α → Bool) : ∀ (l : List α), (∀ x ∈ l, P x = true → Q x = true) →
+    (l.filter P).length ≤ (l.filter Q).length
+  | [], _ => by simp
+  | x :: xs, h => by
+    have ih := filter_length_le_of_imp P Q xs (fun y hy => h y (List.mem_cons_of_mem _ hy))
+    have hx := h x (by simp)
+    simp only [List.filter_cons]
+    cases hp : P x with
+    | false =>
+      cases hq : Q x with
+      | false => simpa using ih
+      | true => simp only [Bool.false_eq_true, if_false, if_true, List.length_cons]; omega
+    | true =>
+      rw [hx hp]
+      simpa using ih
+
+theorem filter_length_lt {α} (P Q : α → Bool) : ∀ (l : List α), (∀ x ∈ l, P x = true → Q x = true) →
+    ∀ x0 ∈ l, Q x0 = true → P x0 = false → (l.filter P).length < (l.filter Q).length
+  | [], _, _, h0, _, _ => by simp at h0
+  | x :: xs, h, x0, h0, hq0, hp0 => by
+    have hle := filter_length_le_of_imp P Q xs (fun y hy => h y (List.mem_cons_of_mem _ hy))
+    simp only [List.mem_cons] at h0
+    simp only [List.filter_cons]
+    rcases h0 with rfl | h0
+    · rw [hp0, hq0]
+      simp only [Bool.false_eq_true, if_false, if_true, List.length_cons]
+      omega
+    · have ih := filter_length_lt P Q xs (fun y hy => h y (List.mem_cons_of_mem _ hy)) x0 h0 hq0 hp0
+      have hx := h x (by simp)
+      cases hp : P x with
+      | false =>
+        cases hq : Q x with
+        | false => simpa using ih
+        | true => simp only [Bool.false_eq_true, if_false, if_true, List.length_cons]; omega
+      | true =>
+        rw [hx hp]
+        simpa using ih
+
+/-- number of placed buffers that end above `off`: only those can still clash -/
+def pend (placed : List (Buf × Nat)) (off : Nat) : Nat :=
+  (placed.filter fun p => decide (off < p.2 + p.1.size)).length
+
+theorem clash_lt {b : Buf} {off : Nat} {p : Buf × Nat} (h : clashWith b off p = true) :
+    off < p.2 + p.1.size := by
+  unfold clashWith disjointRange at h
+  simp only [Bool.and_eq_true, Bool.not_eq_true', Bool.or_eq_false_iff, decide_eq_false_iff_not] at h
+  omega
+
+theorem findSlot_isSome (b : Buf) (a : Nat) (ha : 0 < a) (placed : List (Buf × Nat)) :
+    ∀ (fuel off : Nat), pend placed off < fuel → (findSlot b a placed fuel off).isSome = true
+  | 0, _, h => by omega
+  | fuel + 1, off, h => by
+    simp only [findSlot]
+    split
+    · rfl
+    · rename_i p hp
+      have hmem := List.mem_of_find?_eq_some hp
+      have hclash := List.find?_some hp
+      have hlt := clash_lt hclash
+      have hge := alignUp_ge off a ha
+      apply findSlot_isSome b a ha placed fuel
+      have h1 : pend placed (p.2 + p.1.size) < pend placed (alignUp off a) := by
+        unfold pend
+        apply filter_length_lt _ _ placed _ p hmem
+        · simpa using hlt
+        · simp
+        · intro x _ hx
+          simp only [decide_eq_true_eq] at hx ⊢
+          omega
+      have h2 : pend placed (alignUp off a) ≤ pend placed off := by
+        unfold pend
+        apply filter_length_le_of_imp
+        intro x _ hx
+        simp only [decide_eq_true_eq] at hx ⊢
+        omega
+      omega
+
+theorem pend_le (placed : List (Buf × Nat)) (off : Nat) : pend placed off ≤ placed.length := by
+  unfold pend; exact List.length_filter_le _ _
+
+theorem firstFitAux_fuel (cap : Nat) : ∀ (bufs : List Buf) (placed : List (Buf × Nat)),
+    firstFitAux cap bufs placed ≠ .error .solverFuel
+  | [], _ => by simp [firstFitAux]
+  | b :: rest, placed => by
+    simp only [firstFitAux]
+    have hs := findSlot_isSome b (max 1 b.align) (by omega) placed (placed.length + 1) 0
+      (by have := pend_le placed 0; omega)
+    split
+    · rename_i hnone; rw [hnone] at hs; simp at hs
+    · rename_i off _
+      split
+      · simp
+      · have ih := firstFitAux_fuel cap rest (placed ++ [(b, off)])
+        cases hr : firstFitAux cap rest (placed ++ [(b, off)]) with
+        | error e => simp [Except.map]; intro he; subst he; exact ih hr
+        | ok tl => simp [Except.map]
+
+theorem firstFitAux_err (cap : Nat) : ∀ (bufs : List Buf) (placed : List (Buf × Nat)) (e : Err),
+    firstFitAux cap bufs placed = .error e → e = .solverFull ∨ e = .solverFuel
+  | [], _, e, h => by simp [firstFitAux] at h
+  | b :: rest, placed, e, h => by
+    simp only [firstFitAux] at h
+    split at h
+    · simp at h; exact Or.inr h.symm
+    · rename_i off _
+      split at h
+      · simp at h; exact Or.inl h.symm
+      · cases hr : firstFitAux cap rest (placed ++ [(b, off)]) with
+        | error e' =>
+          simp [hr, Except.map] at h
+          subst h
+          exact firstFitAux_err cap rest _ e' hr
+        | ok tl => simp [hr, Except.map] at h
+
+/-! ## the lifetimes are tight -/
+
+theorem usesAny_witness {S : List Nat} {n : Node} (h : usesAny S n = true) : ∃ w ∈ n.ops, w ∈ S := by
+  unfold usesAny at h
+  rw [List.any_eq_true] at h
+  obtain ⟨w, hw, hc⟩ := h
+  exact ⟨w, hw, by simpa using hc⟩
+
+theorem aliasScan_sound (fl : List (Node × Nat)) (r : Nat) : ∀ (rest : List (Node × Nat)) (S : List Nat),
+    (∀ v ∈ S, Alias fl r v) → (∀ n ∈ rest, n ∈ fl) → ∀ v ∈ aliasScan S rest, Alias fl r v
+  | [], S, hS, _ => by simpa [aliasScan] using hS
+  | (n, t) :: rest, S, hS, hsub => by
+    simp only [aliasScan]
+    apply aliasScan_sound fl r rest
+    · split
+      · rename_i hc
+        simp only [Bool.and_eq_true] at hc
+        obtain ⟨w, hw, hwS⟩ := usesAny_witness hc.2
+        intro v hv
+        simp only [List.mem_append] at hv
+        rcases hv with hv | hv
+        · exact Alias.step (hsub (n, t) (by simp)) hc.1 hw (hS w hwS) hv
+        · exact hS v hv
+      · exact hS
+    · intro m hm; exact hsub m (List.mem_cons_of_mem _ hm)
+
+theorem endTime_mem : ∀ (tops : List Nat) (s : Nat), endTime s tops = s ∨ endTime s tops ∈ tops
+  | [], s => by simp [endTime]
+  | x :: xs, s => by
+    have ih := endTime_mem xs (max s x)
+    simp only [endTime, List.foldl_cons] at ih ⊢
+    rcases ih with ih | ih
+    · rcases Nat.le_total s x with h | h
+      · right; rw [ih, Nat.max_eq_right h]; simp
+      · left; rw [ih, Nat.max_eq_left h]
+    · right; exact List.mem_cons_of_mem _ ih
+
+theorem useTops_witness {S : List Nat} {fl : List (Node × Nat)} {t : Nat} (h : t ∈ useTops S fl) :
+    ∃ n, (n, t) ∈ fl ∧ usesAny S n = true := by
+  unfold useTops at h
+  rw [List.mem_map] at h
+  obtain ⟨⟨n, t'⟩, hm, rfl⟩ := h
+  rw [List.mem_filter] at hm
+  exact ⟨n, hm.1, hm.2⟩
+
+/-! ## the alias scan reaches a fixed point on every program in SSA order -/
+
+theorem usesAny_append_of_disjoint {S T : List Nat} {n : Node} (hd : ∀ w ∈ T, w ∉ n.ops)
+    (h : usesAny (T ++ S) n = true) : usesAny S n = true := by
+  unfold usesAny at h ⊢
+  rw [List.any_eq_true] at h ⊢
+  obtain ⟨w, hw, hc⟩ := h
+  refine ⟨w, hw, ?_⟩
+  simp only [List.contains_eq_mem, List.mem_append, decide_eq_true_eq] at hc ⊢
+  rcases hc with hc | hc
+  · exact absurd hw (hd w hc)
+  · exact hc
+
+theorem closed_of_wellOrd : ∀ (rest pre : List (Node × Nat)) (S : List Nat),
+    (∀ n ∈ pre, (follows .fixed n.1 && usesAny S n.1) = true → ∀ v ∈ n.1.res, v ∈ S) →
+    (∀ n ∈ pre, ∀ m ∈ rest, ∀ w ∈ m.1.res, w ∉ n.1.ops) →
+    WellOrd rest →
+    ∀ n ∈ pre ++ rest, (follows .fixed n.1 && usesAny (aliasScan S rest) n.1) = true →
+      ∀ v ∈ n.1.res, v ∈ aliasScan S rest
+  | [], pre, S, hpre, _, _ => by simpa [aliasScan] using hpre
+  | (m, t) :: rest, pre, S, hpre, hdis, hwo => by
+    obtain ⟨hself, hlater, hwo'⟩ := hwo
+    simp only [aliasScan]
+    have key := closed_of_wellOrd rest (pre ++ [(m, t)])
+      (if follows .fixed m && usesAny S m then m.res ++ S else S) ?_ ?_ hwo'
+    · intro n hn
+      exact key n (by simpa [List.append_assoc] using hn)
+    · -- the extended prefix is closed w.r.t. the extended set
+      intro n hn hfu v hv
+      simp only [List.mem_append, List.mem_singleton] at hn
+      rcases hn with hn | rfl
+      · split at hfu
+        · rename_i hcond
+          simp only [Bool.and_eq_true] at hfu
+          have hu := usesAny_append_of_disjoint (hdis n hn (m, t) (by simp)) hfu.2
+          rw [if_pos hcond]
+          exact List.mem_append_right _ (hpre n hn (by simp [hfu.1, hu]) v hv)
+        · rename_i hcond
+          rw [if_neg hcond]
+          exact hpre n hn hfu v hv
+      · simp only at hfu hv ⊢
+        split at hfu
+        · rename_i hcond
+          rw [if_pos hcond]
+          exact List.mem_append_left _ hv
+        · rename_i hcond
+          exact absurd hfu hcond
+    · intro n hn m' hm' w hw
+      simp only [List.mem_append, List.mem_singleton] at hn
+      rcases hn with hn | rfl
+      · exact hdis n hn m' (by simp [hm']) w hw
+      · exact hlater m' hm' w hw
+
+theorem aliasScan_closed (r : Nat) (fl : List (Node × Nat)) (h : WellOrd fl) :
+    closed (aliasScan [r] fl) fl = true := by
+  unfold closed
+  rw [List.all_eq_true]
+  intro n hn
+  have := closed_of_wellOrd fl [] [r] (by simp) (by simp) h n (by simpa using hn)
+  cases hc : (follows .fixed n.1 && usesAny (aliasScan [r] fl) n.1) with
+  | false => simp [hc]
+  | true =>
+    simp only [hc, Bool.not_true, Bool.false_or, List.all_eq_true]
+    intro v hv
+    simpa using this hc v hv
+
+theorem aliasSet_fixed_ok (r : Nat) (fl : List (Node × Nat)) (h : WellOrd fl) :
+    aliasSet .fixed r fl = .ok (aliasScan [r] fl) := by
+  simp [aliasSet, aliasScan_closed r fl h]
+
+theorem buffersFrom_not_notClosed (fl : List (Node × Nat)) (h : WellOrd fl) :
+    ∀ (p : Prog) (k : Nat), buffersFrom .fixed fl p k ≠ .error .notClosed
+  | [], k => by simp [buffersFrom]
+  | .op _ _ :: rest, k => by simp only [buffersFrom]; exact buffersFrom_not_notClosed fl h rest (k + 1)
+  | .alloc res req fu :: rest, k => by
+    simp only [buffersFrom]
+    have ih := buffersFrom_not_notClosed fl h rest (k + 1)
+    unfold mkBuf
+    rw [aliasSet_fixed_ok res fl h]
+    cases req.size with
+    | none => simp
+    | some size =>
+      cases req.mem with
+      | none => simp
+      | some m =>
+        simp only
+        cases hr : buffersFrom .fixed fl rest (k + 1) with
+        | error e => simp [Except.map]; intro he; subst he; exact ih hr
+        | ok tl => simp [Except.map]
+
+theorem attachCasts_not_notClosed : ∀ (bs : List Buf) (fus : List (Option (Option Nat))),
+    attachCasts bs fus ≠ .error .notClosed
+  | [], _ => by simp [attachCasts]
+  | _ :: _, [] => by simp [attachCasts]
+  | b :: bs, fu :: fus => by
+    simp only [attachCasts]
+    have ih := attachCasts_not_notClosed bs fus
+    split
+    · simp
+    · simp
+    · cases hr : attachCasts bs fus with
+      | error e => simp [Except.map]; intro he; subst he; exact ih hr
+      | ok tl => simp [Except.map]
+
+/-- shape of every placed address: the solver's offset for that buffer plus the start of its memory -/
+theorem placed_addr_form (vm : ViewMode) (mems : List Mem) (sol : Nat → List Nat) (p : Prog) (r : MiniResult)
+    (h : miniMallocate vm mems sol p = .ok r) :
+    ∀ x ∈ r.placed, x.1 ∈ r.bufs ∧ ∃ mem off, mems[x.1.mem]? = some mem ∧
+      (x.1, off) ∈ (subset r.bufs x.1.mem).zip (sol x.1.mem) ∧ x.2.addr = off + mem.start := by
+  unfold miniMallocate at h
+  split at h
+  · simp at h
+  · rename_i bs hbs
+    split at h
+    · simp at h
+    · split at h
+      · simp at h
+      · rename_i pl hpl
+        simp only [Except.ok.injEq] at h
+        subst h
+        simp only
+        obtain ⟨hmap, hone⟩ := placeAll_spec mems sol bs bs pl hpl
+        intro x hx
+        have hxb : x.1 ∈ bs := by rw [← hmap]; exact List.mem_map_of_mem hx
+        obtain ⟨mem, off, hmem, hz, hP⟩ := placeOne_spec mems sol bs x.1 x.2 (hone x hx)
+        exact ⟨hxb, mem, off, hmem, hz, by rw [hP]⟩
+
+theorem wellOrdB_sound : ∀ (l : List (Node × Nat)), wellOrdB l = true → WellOrd l
+  | [], _ => trivial
+  | (n, t) :: rest, h => by
+    simp only [wellOrdB, Bool.and_eq_true, List.all_eq_true, Bool.not_eq_true',
+      List.contains_eq_mem, decide_eq_false_iff_not] at h
+    obtain ⟨⟨h1, h2⟩, h3⟩ := h
+    exact ⟨h1, fun m hm w hw => h2 m hm w hw, wellOrdB_sound rest h3⟩
+
 end SnaxVerif.Alloc
